@@ -238,6 +238,8 @@ def main(argv=None):
             path = write_replay(pid, clause, payload)
             violations.append((clause, path, " no-failing-input-found"))
         else:
+            if "exception" in o.meta:
+                res = dict(res, info=f"{o.meta['exception']} :: {o.meta.get('tb', '')[-700:]}")
             undecided.append((o.name, res))
 
     # ---- ledger -----------------------------------------------------------------------------
@@ -292,7 +294,7 @@ def main(argv=None):
     for hit, clause in known_hits:
         print(f"KNOWN-FINDING: property={pid} {hit.get('what', clause)} [{clause}]")
     for name, res in undecided:
-        print(f"UNDECIDED obligation={name} tried={res['tried']} info={str(res['info'])[:120]}")
+        print(f"UNDECIDED obligation={name} tried={res['tried']} info={str(res['info'])[:900]}")
     for e in checker_errors:
         print(f"CHECKER-ERROR {e}")
     for clause, path, suffix in violations:
